@@ -33,7 +33,7 @@ theorem stack_step_refines (s : S α) (op : Op α) :
   | each k => simp [step, Lifo.step, each_abs]
   | len => simp [step, Lifo.step]
   | isEmpty =>
-    simp only [step, Lifo.step, Prod.mk.injEq, true_and, Out.bool.injEq]
+    simp only [step, Lifo.step, isEmptyTest_eq, Prod.mk.injEq, true_and, Out.bool.injEq]
     cases s <;> simp
   | slice => simp [step, Lifo.step, slice_abs]
 
